@@ -1732,6 +1732,119 @@ async fn folder_api_case(init: &StateItem, seq: &[&str], work: &Path) -> Value {
     json!({"fails": fails})
 }
 
+/// The operations of the editing device in a forced-overwrite case: they
+/// touch only folders that exist on both devices.
+fn fm_ops(m: &Model, _p: &Profile) -> Vec<Op> {
+    let mut out: Vec<Op> = vec![];
+    for f in [0usize, 2] {
+        if m.folders.get(f).map(|x| x.alive) == Some(true) {
+            out.push(Op::Create { f, kind: "note".into(), variant: 0 });
+        }
+    }
+    for (i, s) in m.secrets.iter().enumerate() {
+        if !s.alive {
+            continue;
+        }
+        out.push(Op::Update { s: i, with_value: true });
+        out.push(Op::Update { s: i, with_value: false });
+        out.push(Op::Delete { s: i });
+        if m.folders[s.folder].role != "archive" {
+            out.push(Op::Archive { s: i });
+            out.push(Op::Move { s: i, to: if s.folder == 0 { 2 } else { 0 } });
+        }
+    }
+    for f in [0usize, 2] {
+        if m.folders.get(f).map(|x| x.alive) == Some(true) {
+            out.push(Op::RenameFolder { f });
+            out.push(Op::SetDescription { f });
+            if m.folders[f].role == "user" {
+                out.push(Op::SetFlags { f });
+            }
+            out.push(Op::CompactFolder { f });
+        }
+    }
+    out
+}
+
+const FM_WIDTH: usize = 24;
+
+/// Forced overwrite (C02, C20): device 1 performs a history, device 2 (a
+/// copy of the same initial account) diverges or not, then device 2 takes
+/// the complete folder logs of device 1 with `force_merge_folder`. On
+/// device 2: view == device 1's model, replay == served == mirror, index
+/// == rebuilt index; the same after a fresh sign-in.
+async fn force_merge_case(init: &StateItem, p: &Profile, idx: &[usize], diverge: bool, work: &Path) -> Value {
+    use sos_sync::{ForceMerge, MergeOutcome};
+    let b = init.backend;
+    let mut fails = Fails::default();
+    let mut counters = Counters::default();
+    let mut hist: Vec<Op> = vec![];
+    let r: Result<bool> = async {
+        let _ = std::fs::remove_dir_all(work);
+        let (w1, w2) = (work.join("d1"), work.join("d2"));
+        fsutil::copy_dir(Path::new(&init.dir), &w1)?;
+        fsutil::copy_dir(Path::new(&init.dir), &w2)?;
+        clock::install();
+        clock::set_tick(0, 70_000);
+        let account_id: sos_core::AccountId = init.account_id.parse().unwrap();
+        let mut d1 = Dev::open(&w1, b, account_id, pw(0)).await?;
+        let mut m1 = init.model.clone();
+        for i in idx {
+            let ops = fm_ops(&m1, p);
+            let Some(op) = ops.get(*i).cloned() else {
+                d1.close().await;
+                return Ok(false);
+            };
+            apply(&mut d1, &mut m1, &op).await.map_err(|e| anyhow!("device 1 {}: {}", op.kind(), e))?;
+            hist.push(op);
+        }
+        let mut d2 = Dev::open(&w2, b, account_id, pw(0)).await?;
+        let _ = d2.account.initialize_search_index().await;
+        let mut m2 = init.model.clone();
+        if diverge {
+            apply(&mut d2, &mut m2, &Op::Create { f: 0, kind: "note".into(), variant: 1 }).await.map_err(|e| anyhow!("device 2 create: {}", e))?;
+        }
+        for mf in m1.folders.iter().filter(|f| f.alive) {
+            let id = vid(&mf.id);
+            let diff = {
+                let log = d1.account.folder_log(&id).await?;
+                let log = log.read().await;
+                log.diff_unchecked().await?
+            };
+            let mut outcome = MergeOutcome::default();
+            d2.account.force_merge_folder(&id, diff, &mut outcome).await.map_err(|e| anyhow!("force_merge_folder: {}", e))?;
+        }
+        d1.close().await;
+        let last = hist.last().cloned().unwrap_or(Op::CreateFolder);
+        check_view(&mut d2, &m1, "after_force_merge", &last, &mut fails).await;
+        check_c02(&mut d2, &m1, &last, &mut fails, &mut counters).await;
+        check_c20(&mut d2, &m1, &last, &mut fails).await;
+        d2.close().await;
+        let mut d3 = Dev::open(&w2, b, account_id, pw(0)).await.map_err(|e| anyhow!("reload: {}", e))?;
+        check_view(&mut d3, &m1, "after_force_merge_and_reload", &last, &mut fails).await;
+        check_c02(&mut d3, &m1, &last, &mut fails, &mut counters).await;
+        d3.close().await;
+        Ok(true)
+    }
+    .await;
+    let mut out: Vec<Value> = vec![];
+    let executed = match r {
+        Ok(x) => x,
+        Err(e) => {
+            let msg: String = e.to_string().chars().filter(|c| !c.is_ascii_digit()).take(70).collect();
+            out.push(json!({"prop": "C02", "sig": format!("force_merge:error:{}:{}", msg, b.name()), "what": format!("{}", e), "detail": {"history": hist, "diverge": diverge}}));
+            true
+        }
+    };
+    for (prop, sig, what, detail) in fails.0 {
+        // the view oracle files under C01/C12: a folder that does not match
+        // the overwriting log after a forced overwrite is a C02 matter
+        let prop = if prop == "C20" { "C20" } else { "C02" };
+        out.push(json!({"prop": prop, "sig": format!("force_merge:{}", sig), "what": format!("after device 2 took device 1's folder logs with force_merge_folder: {}", what), "detail": {"history": hist, "diverge": diverge, "backend": b.name(), "oracle": detail}}));
+    }
+    json!({"fails": out, "executed": executed, "folder_checks": counters.c02_folder_checks, "commit_checks": counters.c02_commit_checks})
+}
+
 fn rt() -> tokio::runtime::Runtime {
     tokio::runtime::Builder::new_multi_thread()
         .worker_threads(2)
@@ -1839,6 +1952,16 @@ fn main() {
             let init = &inits[idx / total];
             let seq = folder_seq(idx % total, depth);
             rt.block_on(folder_api_case(init, &seq, &wd2.path().join("w")))
+        });
+    }
+    if pool::worker_stage().as_deref() == Some("forcemerge") {
+        let input = std::env::var("VKIT_INPUT").expect("VKIT_INPUT");
+        let (inits, items): (Vec<StateItem>, Vec<(usize, Vec<usize>, bool)>) = serde_json::from_slice(&std::fs::read(&input).unwrap()).unwrap();
+        let wd2 = fsutil::WorkDir::new("hist-fm");
+        let rt = rt();
+        pool::worker_loop(|idx| {
+            let (i, path, diverge) = &items[idx];
+            rt.block_on(force_merge_case(&inits[*i], &p, path, *diverge, &wd2.path().join("w")))
         });
     }
     if pool::worker_stage().is_some() {
@@ -2067,6 +2190,52 @@ fn main() {
             }
         }
     }
+    // forced overwrites (C02, C20)
+    let mut force_merge_cases = json!(null);
+    if (prop == "C02" || prop == "C20") && !folder_api_inits.is_empty() && std::env::var("VKIT_FRAGMENT").is_err() {
+        let fdepth = if args.tier == Tier::Quick { 1 } else { 2 };
+        let mut items: Vec<(usize, Vec<usize>, bool)> = vec![];
+        for i in 0..folder_api_inits.len() {
+            for diverge in [false, true] {
+                for a in 0..FM_WIDTH {
+                    items.push((i, vec![a], diverge));
+                    if fdepth > 1 {
+                        for b2 in 0..FM_WIDTH {
+                            items.push((i, vec![a, b2], diverge));
+                        }
+                    }
+                }
+            }
+        }
+        let input = wd.path().join("forcemerge.json");
+        std::fs::write(&input, serde_json::to_vec(&(&folder_api_inits, &items)).unwrap()).unwrap();
+        let mut opts = PoolOpts::default();
+        opts.env.push(("VKIT_INPUT".into(), input.to_string_lossy().to_string()));
+        let (mut executed, mut fchecks, mut cchecks) = (0u64, 0u64, 0u64);
+        for (i, r) in pool::run_stage("forcemerge", items.len(), &opts).into_iter().enumerate() {
+            match r {
+                pool::ItemResult::Crashed(w) => run.machinery(format!("force merge case {:?}: {}", items[i], w)),
+                pool::ItemResult::Done(v) => {
+                    if v["executed"].as_bool() != Some(true) {
+                        continue;
+                    }
+                    executed += 1;
+                    transitions += 1;
+                    fchecks += v["folder_checks"].as_u64().unwrap_or(0);
+                    cchecks += v["commit_checks"].as_u64().unwrap_or(0);
+                    for f in v["fails"].as_array().unwrap() {
+                        if f["prop"].as_str() == Some(prop.as_str()) {
+                            run.fail(f["sig"].as_str().unwrap(), f["what"].as_str().unwrap(), json!({"engine":"hist","stage":"force_merge","detail": f["detail"]}));
+                        }
+                    }
+                }
+            }
+        }
+        if executed == 0 {
+            run.machinery("vacuous: no forced-overwrite case executed");
+        }
+        force_merge_cases = json!({"cases": executed, "device_1_history_depth": fdepth, "device_2": ["no divergence", "one local create"], "backends": backends.iter().map(|b| b.name()).collect::<Vec<_>>(), "replay_served_mirror_checks": fchecks, "until_commit_checks": cchecks});
+    }
     // differential: same history => same canonical state on both backends
     let mut diff_checked = 0u64;
     if hist_canon.len() == 2 {
@@ -2161,6 +2330,7 @@ fn main() {
     cov.insert("caps_hit".into(), json!(capped));
     cov.insert("profile".into(), json!(p));
     cov.insert("folder_api_id_reuse_sequences".into(), json!(folder_api_cases));
+    cov.insert("forced_overwrite_cases_(force_merge_folder)".into(), force_merge_cases);
     cov.insert("merge_worlds_(sync_engine_by_product)".into(), merge_worlds);
     if prop == "C16" {
         cov.insert("completeness_(corruption_enumerator_integx)".into(), completeness);
